@@ -489,6 +489,9 @@ class SpecGen:
         el_struct = None
         if r < 0.4 and structs:
             el_struct = rng.choice(structs)
+            rows = [t for t in structs if t.fixed is not None and t.array_depth >= 1]
+            if rows and rng.random() < 0.4:
+                el_struct = rng.choice(rows)      # a fixed-size structure that itself holds a counted array ("rows of cells")
             etype, efixed, ebounded, edepth = el_struct.name, el_struct.fixed, el_struct.bounded, el_struct.array_depth
         elif r < 0.55 and enums:
             t = rng.choice(enums)
@@ -723,7 +726,28 @@ def _snake(name):
     return "".join(out)
 
 
+def add_rows(tree, rng):
+    """"Rows of cells": a fixed-size structure that itself holds a counted array, used as the element of an array
+    without a length (whose element count the generated reader derives from the element's size), once plain and
+    once inside a chunk.  A shape the real protocol has (map files) and the random walk above rarely reaches."""
+    n = rng.choice([2, 3, 4])
+    cell = rng.choice(["char", "short", "three", "byte"])
+    lead = rng.choice(["", '        <field name="owner" type="char"/>\n', '        <field name="owner" type="short"/>\n'])
+    tail = rng.choice(["", '        <field name="mark" type="byte"/>\n'])
+    xml = (f'    <struct name="RowOfCells">\n{lead}        <array name="cells" type="{cell}" length="{n}"/>\n{tail}    </struct>\n'
+           f'    <struct name="RowsPlain">\n        <field name="tag" type="char"/>\n        <array name="rows" type="RowOfCells"/>\n    </struct>\n'
+           f'    <struct name="RowsChunked">\n        <chunked>\n            <array name="rows" type="RowOfCells"/>\n            <break/>\n'
+           f'            <field name="after" type="short"/>\n        </chunked>\n    </struct>\n')
+    rel = rng.choice(sorted(tree))
+    out = dict(tree)
+    out[rel] = tree[rel].replace("</protocol>", xml + "</protocol>")
+    return out
+
+
 def gen_tree(rng, profile="full", upward_refs=False):
     g = SpecGen(rng, profile)
     g.k.upward_refs = upward_refs
-    return g.gen_tree()
+    tree = g.gen_tree()
+    if rng.random() < 0.15 and not any("RowOfCells" in x for x in tree.values()):
+        tree = add_rows(tree, rng)
+    return tree
